@@ -76,6 +76,8 @@ def _bind(callee: ast.FunctionDef, call: ast.Call, implicit_first: bool):
             di = i - (len(params) - len(defaults))
             if di < 0:
                 return None
+            if not isinstance(defaults[di], (ast.Constant, ast.Name, ast.Attribute, ast.UnaryOp, ast.Tuple)):
+                return None          # a mutable default is one shared object: substituting its display would hide that
             m[p] = defaults[di]
     return m
 
